@@ -156,6 +156,57 @@ def c04_reverse(ctx, case):
     est.compare_psd(ctx, row, b, np.real(a), "%s: estimate changes under conjugated time reversal" % row, sig=sig)
 
 
+# ---- a fixed grid: every row x two record lengths x every relation, every window name x three lengths ---------------------
+GRID_PARAMS = {"Periodogram": {"window": "hamming"}, "pcorrelogram": {"lag": 7, "window": "hann"}, "pburg": {"order": 5},
+               "pyule": {"order": 4}, "pcovar": {"order": 4}, "pmodcovar": {"order": 5}, "parma": {"P": 3, "Q": 2, "lag": 12},
+               "pma": {"Q": 3, "M": 10}, "pminvar": {"order": 6}, "pmusic": {"IP": 7, "NSIG": 2}, "pev": {"IP": 7, "NSIG": 2},
+               "mtm_unity": {"NW": 2.5, "k": 4}, "mtm_eigen": {"NW": 2.5, "k": 4}, "mtm_adapt": {"NW": 2.5, "k": 4}}
+
+
+def _grid_x(N, cplx, salt):
+    return {"kind": "ar", "n": N, "complex": cplx, "seed": 4000 + 17 * N + salt, "pole": [0.7, 1.3]}
+
+
+def enum_grid(tier):
+    for row in est.ROWS:
+        for N in (17, 40, 150, 301):
+            if N > 150 and row.startswith("mtm_"):
+                continue
+            for nfft in sorted({N, N + 3, 2 * N}):
+                base = {"row": row, "params": GRID_PARAMS[row], "nfft": max(nfft, est.min_nfft(row, N, GRID_PARAMS[row])), "sbf": False, "sampling": 1.0}
+                yield dict(base, rel="shift", x=_grid_x(N, True, 1), m=3)
+                yield dict(base, rel="shift", x=_grid_x(N, True, 2), m=-(nfft // 2))
+                yield dict(base, rel="conj", x=_grid_x(N, True, 3))
+                if row in est.TIME_REVERSAL:
+                    yield dict(base, rel="reverse", x=_grid_x(N, True, 4))
+                    yield dict(base, rel="reverse", x=_grid_x(N, False, 5))
+                if row in est.REAL_COMPLEX:
+                    yield dict(base, rel="real", x=_grid_x(N, False, 6))
+    # every window name (Periodogram: the taper itself; pcorrelogram: the lag window), even and odd lengths
+    for name in sorted(spectrum.window.window_names.keys()):
+        for N in (16, 17, 33):
+            for row, p in (("Periodogram", {"window": name}), ("pcorrelogram", {"lag": 6, "window": name})):
+                base = {"row": row, "params": p, "nfft": 2 * N + 1, "sbf": False, "sampling": 1.0}
+                yield dict(base, rel="reverse", x=_grid_x(N, True, 7))
+                yield dict(base, rel="reverse", x=_grid_x(N, False, 8))
+                yield dict(base, rel="conj", x=_grid_x(N, True, 9))
+                yield dict(base, rel="shift", x=_grid_x(N, True, 10), m=5)
+
+
+@sub("C04.grid", enum=enum_grid, exhaustive=True, shards_quick=4, shards_thorough=4,
+     doc="fixed grid, independent of the seed: every estimator row x N in {17, 40, 150, 301} x NFFT in {N, N+3, 2N} x every relation "
+         "the row has (shift by 3 and by -NFFT/2, conjugation, time reversal, real one-/two-sided), and Periodogram / pcorrelogram "
+         "with every window name x N in {16, 17, 33}")
+def c04_grid(ctx, case):
+    w = case["params"].get("window")
+    if w is not None:
+        n = len(gen.realise(case["x"])) if case["row"] == "Periodogram" else 2 * case["params"]["lag"] + 1
+        if not np.all(np.isfinite(spectrum.Window(n, w).data)):
+            ctx.exclude("window with non-finite samples (C20's business)")
+            return
+    {"shift": c04_shift, "conj": c04_conj, "reverse": c04_reverse, "real": c04_real}[case["rel"]](ctx, case)
+
+
 # ---- sharp spectral lines: the same clauses where the evaluation of the spectrum is ill-conditioned ----------------------
 SHARP_ROWS = ("pcovar", "pmodcovar", "pburg", "pyule", "pminvar")
 
